@@ -216,6 +216,9 @@ class _State:
             for m in re.finditer(r"(?<![\w:])([A-Z]\w*)(?![\w:<])", t or ""):
                 if m.group(1) not in names and m.group(1) not in ("Self",):
                     names.append(m.group(1))
+        if names and len(targs) > len(names) and (callee.get("impl_trait") or callee.get("impl_self")):
+            # a method: the leading generic arguments belong to the impl (Self, its parameters), the method's own come last
+            targs = targs[len(targs) - len(names):]
         if not names or len(names) != len(targs):
             return None
         return dict(zip(names, targs))
@@ -234,6 +237,9 @@ class _State:
             if isinstance(o, dict):
                 for k in list(o):
                     if k in ("self_ty", "args", "resolved", "ty", "resolved_args") and o[k] is not None:
+                        if k == "resolved" and isinstance(o[k], str) and fix(o[k]) != o[k]:
+                            # the impl method a call was resolved to is named by its generic path in the fact base
+                            o.setdefault("resolved_generic", o[k])
                         o[k] = fix(o[k])
                     else:
                         walk(o[k])
@@ -382,12 +388,21 @@ class _State:
             if not c.get("resolved") and c.get("trait") and c.get("self_ty"):
                 self._resolve_trait_call(c)
             path = c.get("resolved") or c["def"]
+            if self.facts.fn(path) is None and c.get("resolved_generic") and self.facts.fn(c["resolved_generic"]) is not None:
+                path = c["resolved_generic"]
             if self.fl.loops and c.get("krate") in ("core", "std", "alloc") and c["def"] in ("std::iter::Iterator::try_for_each", "std::iter::Iterator::for_each") \
                     and self._expand_iter_loop(i, b, t, c, depth, stack):
                 continue
             if self.fl.expand and c.get("krate") in ("core", "std", "alloc") and self._expand(i, b, t, c, depth, stack):
                 continue
             callee = self.facts.fn(path)
+            if callee is None and c["def"] in ("std::ops::FnOnce::call_once", "std::ops::FnMut::call_mut", "std::ops::Fn::call") and t["ops"]:
+                # a closure handed to an inlined generic helper (`fn with<F: FnOnce(..)>(self, f: F) { f(..) }`): the call
+                # through the type parameter is a call of the closure the caller passed
+                cl_ = self.closure_of(t["ops"][0])
+                if cl_ is not None and self.facts.fn(cl_[0]) is not None and cl_[0] not in stack and not self.fl.kept(cl_[0]):
+                    self._inline_closure_call(i, b, t, self.facts.fn(cl_[0]), depth, stack)
+                continue
             if callee is None or path in stack or self.fl.kept(path):
                 continue
             if callee["kind"] == "closure":
@@ -874,12 +889,14 @@ class _State:
         line = t.get("line", 0)
         if len(ops) != 2 or ops[0].get("k") not in ("move", "copy"):
             return False
-        cl = self.closure_of(ops[1])
-        if cl is None:
+        fnitem = ops[1] if (ops[1].get("k") == "const" and ops[1].get("fn")) else None
+        cl = self.closure_of(ops[1]) if fnitem is None else None
+        if cl is None and fnitem is None:
             return False
-        f = self.facts.fn(cl[0])
-        if f is None or f["kind"] != "closure" or cl[0] in stack:
-            return False
+        if cl is not None:
+            f = self.facts.fn(cl[0])
+            if f is None or f["kind"] != "closure" or cl[0] in stack:
+                return False
         x = ops[0]["pl"]
         POLL = "std::task::Poll"
         dest, target = t["dest"], t["t"]
@@ -887,7 +904,13 @@ class _State:
         fin = self.new_block([_assign(copy.deepcopy(dest), _adt(POLL, "Ready", 0, [_mv(tmp)]), line)], _goto(target, line), i)
         ready = self.new_block([], _goto(fin, line), i)
         pay = {"k": "move", "pl": {"l": x["l"], "p": list(x["p"]) + [{"dc": "Ready", "vi": 0}, {"f": 0, "n": "0", "adt": POLL, "ty": payload_ty(c.get("self_ty") or "", "Some")}]}}
-        self._splice_closure(ready, self.blocks[ready], f, cl[1], [pay], _pl(tmp), fin, depth, stack, line)
+        if fnitem is not None:
+            # a function item (`.map(ReadOutcome::from_io)`): an ordinary call; it may be inlined in its turn
+            self.blocks[ready]["term"] = {"k": "call", "callee": copy.deepcopy(fnitem["fn"]), "fn_op": copy.deepcopy(fnitem), "ops": [pay],
+                                          "dest": _pl(tmp), "t": fin, "cline": line, "cexp": False, "line": line, "exp": False}
+            self.work.append(ready)
+        else:
+            self._splice_closure(ready, self.blocks[ready], f, cl[1], [pay], _pl(tmp), fin, depth, stack, line)
         pend = self.new_block([_assign(copy.deepcopy(dest), _adt(POLL, "Pending", 1, []), line)], _goto(target, line), i)
         d = self.new_local("isize")
         dead = self.new_block([], {"k": "unreachable", "line": line, "exp": False}, i)
